@@ -18,6 +18,9 @@
                                  context allows limited connections
             obs (res dp use h lp ninv hreg hlp)^n  u (reg lp)^u  KNOW SCOPE
        6 slot how                close/reset both ends of held stream    obs SCOPE
+       7 dir wait                the connection is closed, a new one is made below the
+                                 host (dir 0 dialer's swarm dials, 1 listener dials);
+                                 wait 0: the next op races identify         obs MUX SCOPE
      MUX   = k p_1..p_k   listener Mux().Protocols() within the universe, in order
      KNOW  = k q_1..q_k   dialer's knowledge about the listener, sorted
      SCOPE = outD_0..outD_{U-1} inL_0..inL_{U-1}  protocol-scope Stat(): streams
@@ -129,6 +132,11 @@ Definition mon_step (U : Z) (has_scope : bool) (lim_in : Z -> Z) (m : mon) (o : 
       else None
   | OClose _ _, ObClose sc' =>
       Some (mkM (m_live m) (m_nreg m) (m_kn m) (if has_scope then sc' else m_sc m))
+  | OReconnect _ _, ObRe mx sc' =>
+      (* a fresh connection: what the dialer knows when NewStream looks is what
+         identify delivers on it = what the listener advertises now (observed);
+         older knowledge is no excuse any more *)
+      Some (mkM (m_live m) (m_nreg m) mx (if has_scope then sc' else m_sc m))
   | _, _ => None
   end.
 
@@ -271,6 +279,15 @@ Fixpoint decode_ops (U : Z) (l : list Z) (fuel : nat) : option (list (op * obs))
         | Some (sc, r1) => option_map (cons (OClose slot how, ObClose sc)) (decode_ops U r1 f)
         | None => None
         end
+    | 7 :: dir :: wait :: r =>
+        match take_list r with
+        | Some (mx, r0) =>
+            match take_n (2 * U) r0 with
+            | Some (sc, r1) => option_map (cons (OReconnect dir wait, ObRe mx sc)) (decode_ops U r1 f)
+            | None => None
+            end
+        | None => None
+        end
     | _ => None
     end
   end.
@@ -364,6 +381,7 @@ Definition obs_eqb (has_scope : bool) (m x : obs) : bool :=
       list_eqb ores_eqb rs rs' && list_eqb pair_eqb (sort_pairs un) (sort_pairs un') &&
       zlist_eqb kn kn' && (negb has_scope || zlist_eqb sc sc')
   | ObClose sc, ObClose sc' => negb has_scope || zlist_eqb sc sc'
+  | ObRe mx sc, ObRe mx' sc' => zlist_eqb mx mx' && (negb has_scope || zlist_eqb sc sc')
   | _, _ => false
   end.
 
@@ -375,6 +393,7 @@ Definition obs_code (x : obs) : list Z :=
       3 :: flat_map (fun r => [o_res r; o_dp r; o_use r; o_h r; o_lp r; o_ninv r]) rs
         ++ [-1] ++ flat_map (fun p => [fst p; snd p]) un ++ [-1] ++ kn ++ [-1] ++ sc
   | ObClose sc => 4 :: sc
+  | ObRe mx sc => 5 :: mx ++ [-1] ++ sc
   end.
 
 Fixpoint conform_run (h : header) (s : st) (i : Z) (tr : list (op * obs)) : list Z :=
